@@ -853,3 +853,40 @@ func failureBlocksThroughPhi(call ssa.Value) []*ssa.BasicBlock {
 	}
 	return out
 }
+
+// callReaches: the call matches pred by its canonical name, or it is a static call of a function
+// of the same package (a helper the calling code was split into) whose body contains, on the way
+// (depth ≤ 2), a call matching pred.
+func callReaches(ci ssa.CallInstruction, pred func(name string) bool, depth int) bool {
+	n, callee := callName(ci.Common())
+	if pred(n) {
+		return true
+	}
+	if callee != nil && callee.Origin() != nil {
+		callee = callee.Origin() // an instantiation is a thin wrapper of its generic origin
+	}
+	if depth >= 2 || callee == nil || len(callee.Blocks) == 0 {
+		return false
+	}
+	caller := ci.Parent()
+	for caller != nil && caller.Parent() != nil {
+		caller = caller.Parent()
+	}
+	if caller == nil || callee.Pkg == nil {
+		return false
+	}
+	cp := caller.Pkg
+	if cp == nil && caller.Origin() != nil {
+		cp = caller.Origin().Pkg
+	}
+	kp := callee.Pkg
+	if cp != kp {
+		return false
+	}
+	for _, cl := range Calls(bodyOf(callee)) {
+		if callReaches(cl.Instr, pred, depth+1) {
+			return true
+		}
+	}
+	return false
+}
